@@ -28,7 +28,7 @@ structure FloatOps (F : Type) where
   feq : F → F → Bool
   /-- `(1.0 - 0.1) * rtt + 0.1 * sample` -/
   ewma : F → F → F
-  /-- `(4.0 * rtt).max((2*MSS) as f64 / send_rate as f64)` -/
+  /-- `(4.0 * rtt).max((2*MSS) as f64 / send_rate.max(1) as f64)` -/
   rto : F → Nat → F
   /-- `eval_tcp_throughput(rtt, p)` -/
   tcpRate : F → F → Nat
